@@ -7,24 +7,24 @@ Open Scope N_scope.
 (* ---- request direction: createUpstreamRequest ---- *)
 
 (* End-to-end headers intact: for EVERY header map, client address and key that is neither in the
-   hop-by-hop table, nor named by the (first) Connection value, nor X-Forwarded-For, the value that
+   hop-by-hop table, nor named in any Connection line, nor X-Forwarded-For, the value that
    leaves createUpstreamRequest is the value that came in. *)
 Theorem C04_e2e_request_headers_preserved :
   forall h remote k,
   ~ In k gen_hop_headers ->
-  (forall tok, In tok (first_conn_tokens h) -> canon_key tok <> k) ->
+  (forall tok, In tok (all_conn_tokens h) -> canon_key tok <> k) ->
   k <> K_XFF ->
   hlookup (create_upstream_headers remote h) k = hlookup h k.
 Proof. exact e2e_preserved. Qed.
 Print Assumptions C04_e2e_request_headers_preserved.
 
 (* Hop-by-hop headers removed — the part that holds of the code: a header of the table whose FIRST
-   value is non-empty, and every header named in the FIRST Connection value, is absent upstream;
-   and nothing absent is invented. *)
+   value is non-empty, and every header named in ANY Connection line (all values of the Connection
+   header, all comma-separated tokens), is absent upstream; and nothing absent is invented. *)
 Theorem C04_hop_headers_removed_partial :
   forall h remote,
   (forall k, In k gen_hop_headers -> hget h k <> [] -> hlookup (create_upstream_headers remote h) k = None) /\
-  (forall tok, In tok (first_conn_tokens h) -> canon_key tok <> K_XFF ->
+  (forall tok, In tok (all_conn_tokens h) -> canon_key tok <> K_XFF ->
                hlookup (create_upstream_headers remote h) (canon_key tok) = None) /\
   (forall k, k <> K_XFF -> hlookup h k = None -> hlookup (create_upstream_headers remote h) k = None).
 Proof.
@@ -40,23 +40,22 @@ Example C04_hop_headers_removed_nonvacuous :
              [(bs "Keep-Alive"%string, [bs "timeout=5"%string]); (bs "Proxy-Authorization"%string, [bs "Basic abc"%string]);
               (K_CONNECTION, [bs "x-a, Keep-Alive"%string]); (bs "X-A"%string, [bs "v"%string]); (bs "X-B"%string, [bs "w"%string])])
           (bs "X-B"%string) = Some [bs "w"%string] /\
-  In (bs "Keep-Alive"%string) gen_hop_headers /\ In (bs "x-a"%string) (first_conn_tokens [(K_CONNECTION, [bs "x-a, Keep-Alive"%string])]).
+  In (bs "Keep-Alive"%string) gen_hop_headers /\ In (bs "x-a"%string) (all_conn_tokens [(K_CONNECTION, [bs "x-a, Keep-Alive"%string])]).
 Proof. vm_compute. tauto. Qed.
 
-(* ... and the full clause ("every hop-by-hop header, including any named in Connection") is FALSE of
-   the code: a hop-by-hop header whose first value is empty is forwarded with all its values
-   (known finding F-C04-2), and a header named in a second Connection line is forwarded (F-C04-1). *)
+(* the witness of the former finding F-C04-1: a header named in a SECOND Connection line is removed *)
+Example C04_second_connection_line_nonvacuous :
+  In (bs "X-Secret"%string) (all_conn_tokens wit_h2) /\ hlookup wit_h2 (bs "X-Secret"%string) = Some [bs "v1"%string] /\
+  hlookup (create_upstream_headers (bs "192.0.2.7:4711"%string) wit_h2) (bs "X-Secret"%string) = None.
+Proof. exact second_connection_line_removed. Qed.
+
+(* ... and the full clause ("every hop-by-hop header") is FALSE of the code: a hop-by-hop header
+   whose first value is empty is forwarded with all its values (known finding F-C04-2). *)
 Theorem C04_hop_headers_removed_refuted :
   exists h remote k, In k gen_hop_headers /\ hlookup h k <> None /\
                      hlookup (create_upstream_headers remote h) k = hlookup h k.
 Proof. exact hop_empty_first_value_refuted. Qed.
 Print Assumptions C04_hop_headers_removed_refuted.
-
-Theorem C04_connection_listed_removed_refuted :
-  exists h remote tok, In tok (all_conn_tokens h) /\
-                       hlookup (create_upstream_headers remote h) (canon_key tok) = Some [bs "v1"%string].
-Proof. exact second_connection_line_refuted. Qed.
-Print Assumptions C04_connection_listed_removed_refuted.
 
 (* The hop-by-hop table regenerated from reverseproxy.go contains every RFC 7230 / RFC 2616 hop-by-hop
    header (and the de-facto ones): dropping an entry from hopHeaders breaks this obligation. *)
@@ -70,7 +69,7 @@ Print Assumptions C04_hop_table_covers_rfc.
 Theorem C04_xff_appended :
   forall h remote ip port,
   split_host_port remote = Some (ip, port) ->
-  (forall prior, (forall tok, In tok (first_conn_tokens h) -> canon_key tok <> K_XFF) ->
+  (forall prior, (forall tok, In tok (all_conn_tokens h) -> canon_key tok <> K_XFF) ->
                  hlookup h K_XFF = Some prior -> prior <> [] ->
                  hlookup (create_upstream_headers remote h) K_XFF = Some [join COMMA_SP (prior ++ [ip])]) /\
   (hlookup h K_XFF = None -> hlookup (create_upstream_headers remote h) K_XFF = Some [ip]).
